@@ -62,6 +62,16 @@ claim('C02',
       'property statement.',
       'symbolic width typing of Gell-Mann coefficient vectors against the record layout [S|A|D|I]; exact polynomial parameter counts',
       'DESIGN.md 4 (W, G), 5 C02')
+claim('C08',
+      'Decides the table clauses of "conversions are mutually inverse": all literal letter / base-4 digit / (x,z) bit / phase-code '
+      'tables of numqi.gate._pauli compose to identities, single and batched paths use the same tables, full_matrix / '
+      'from_full_matrix / from_np_list name the same operator for the same bits, the letter->matrix table holds the canonical Pauli '
+      'of each letter (E1, 22 obligations); the XZ=-iY phase folding coefficients of encoders and decoder cancel mod 4 and the sign '
+      'bits are split / recombined consistently (E2). The group law (phase carries of products and inverses), unpackbits byte order '
+      'and Hermiticity flags are value-level on a finite domain and NOT decided.',
+      'Trusted: symplectic convention X=(1,0), Z=(0,1), Y=(1,1); closed constant folding of the literal tables (sa/tables.py).',
+      'ast extraction + constant folding of literal encoding tables; commuting-diagram check on the 4-letter / 4-phase domain',
+      'DESIGN.md 4 (E1), 5 C08')
 claim('C12',
       'Decides the index-convention clause for symbolic, unequal dim_in and dim_out: each of the 8 conversion / application routines '
       'of numqi.channel returns a tensor of its declared axis type (kraus (k,out,in); choi (in,out|in\',out\'); super (out,out\'|in,in\'); '
@@ -133,7 +143,7 @@ claim('C19',
       'abstract interpretation of literal straight-line gate programs over the Pauli tableau domain; finite exhaustive enumeration of errors below d',
       'DESIGN.md 4 (Q), 5 C19')
 
-for _pid in ['C06', 'C08', 'C13']:
+for _pid in ['C06', 'C13']:
     na(_pid, 'static rules for this property are designed (DESIGN.md 5) but not yet implemented in this revision; not claimed until they are')
 na('C09', 'bijectivity/counting of the Sp(2n,F2) indexing and the transvection lemma are properties of runtime bit vectors under data-dependent branching; no code-shape clause of substance')
 na('C14', 'group axioms of computed Cayley tables, partition and tableau counts are value-level combinatorics; only a 4x4 literal is visible statically')
